@@ -454,4 +454,178 @@ theorem iterGo_memo_once (h : Heap) (fuel : Nat) : ∀ (v : GVal) (path : Path) 
           obtain ⟨k1, k2⟩ := key o.children _ h0
           exact ⟨k1, fun k hk => k2 k (by simp [hk])⟩
 
+/-! ## Memoized traversal: every reachable mutable object is yielded -/
+
+/-- Reachability through children (any object kind). -/
+inductive ReachA (h : Heap) : Nat → Nat → Prop
+  | refl (i : Nat) : ReachA h i i
+  | step (i j k : Nat) (o : GObj) (pv : PElem × GVal) : h[i]? = some o →
+      pv ∈ o.children → pv.2 = .ref j → ReachA h j k → ReachA h i k
+
+def FullAt (h : Heap) (st : IterSt) (k : Nat) : Prop := ∀ j, ReachA h k j → j ∈ st.memo
+
+/-- All memoized objects below level `n` have been completely traversed. -/
+def DoneBelow (h : Heap) (st : IterSt) (n : Nat) : Prop := ∀ k ∈ st.memo, k < n → FullAt h st k
+
+structure MemoStep (h : Heap) (st st' : IterSt) (v : GVal) (n : Nat) : Prop where
+  done : DoneBelow h st' n
+  mono : ∀ k ∈ st.memo, k ∈ st'.memo
+  newLow : ∀ k ∈ st'.memo, k ∈ st.memo ∨ k < v.rank
+  full : ∀ i, v = .ref i → FullAt h st' i
+
+theorem FullAt.mono {h : Heap} {st st' : IterSt} {k : Nat} (hf : FullAt h st k)
+    (hm : ∀ k ∈ st.memo, k ∈ st'.memo) : FullAt h st' k := fun j hj => hm j (hf j hj)
+
+theorem iterGo_memo_complete (h : Heap) (wf : h.WellFormed) (fuel : Nat) :
+    ∀ (v : GVal) (path : Path) (st : IterSt) (n : Nat), v.rank ≤ fuel → v.rank ≤ n →
+      DoneBelow h st n → MemoStep h st (iterGo h .memo fuel v path st) v n := by
+  induction fuel with
+  | zero =>
+    intro v path st n hr _ hd
+    cases v with
+    | atom t =>
+      simp only [iterGo]
+      exact ⟨hd, fun _ hk => hk, fun _ hk => Or.inl hk, by intro i hi; cases hi⟩
+    | ref i => simp [GVal.rank] at hr
+  | succ fuel ih =>
+    intro v path st n hr hn hd
+    rw [iterGo_succ]
+    cases v with
+    | atom t =>
+      simp only [visitSt]
+      exact ⟨hd, fun _ hk => hk, fun _ hk => Or.inl hk, by intro i hi; cases hi⟩
+    | ref i =>
+      have hin : i < n := by simp [GVal.rank] at hn; omega
+      dsimp only
+      split
+      · rename_i hmem
+        have hmem' : i ∈ st.memo := by simpa using hmem
+        refine ⟨hd, fun _ hk => hk, fun _ hk => Or.inl hk, ?_⟩
+        intro k hk; cases hk
+        exact hd i hmem' hin
+      · rename_i hnot
+        have hnot' : i ∉ st.memo := by simpa using hnot
+        -- state after marking `i` and yielding it
+        have hd0 : DoneBelow h { memo := i :: st.memo, out := st.out ++ [(GVal.ref i, path)] } i := by
+          intro k hk hki
+          simp only [List.mem_cons] at hk
+          rcases hk with rfl | hk
+          · omega
+          · exact (hd k hk (by omega)).mono (fun k hk => by simp [hk])
+        simp only [visitSt]
+        cases ho : h[i]? with
+        | none =>
+          dsimp only
+          refine ⟨?_, fun k hk => by simp [hk], ?_, ?_⟩
+          · intro k hk hkn
+            simp only [List.mem_cons] at hk
+            rcases hk with rfl | hk
+            · intro j hj
+              cases hj with
+              | refl => simp
+              | step _ _ _ o pv ho' => rw [ho] at ho'; cases ho'
+            · exact (hd k hk hkn).mono (fun k hk => by simp [hk])
+          · intro k hk
+            simp only [List.mem_cons] at hk
+            rcases hk with rfl | hk
+            · right; simp [GVal.rank]
+            · exact Or.inl hk
+          · intro k hk; cases hk
+            intro j hj
+            cases hj with
+            | refl => simp
+            | step _ _ _ o pv ho' => rw [ho] at ho'; cases ho'
+        | some o =>
+          dsimp only
+          -- fold over the children at level `i`
+          have key : ∀ (cs : List (PElem × GVal)) (st0 : IterSt),
+              (∀ pv ∈ cs, pv ∈ o.children) → DoneBelow h st0 i →
+              let st1 := cs.foldl (fun st pv => iterGo h .memo fuel pv.2 (path ++ [pv.1]) st) st0
+              DoneBelow h st1 i ∧ (∀ k ∈ st0.memo, k ∈ st1.memo) ∧
+                (∀ k ∈ st1.memo, k ∈ st0.memo ∨ k < i) ∧
+                (∀ pv ∈ cs, ∀ c, pv.2 = .ref c → FullAt h st1 c) := by
+            intro cs
+            induction cs with
+            | nil =>
+              intro st0 _ h0
+              exact ⟨h0, fun _ hk => hk, fun _ hk => Or.inl hk, by intro pv hpv; cases hpv⟩
+            | cons c cs ihc =>
+              intro st0 hsub h0
+              simp only [List.foldl_cons]
+              have hc : c ∈ o.children := hsub c (by simp)
+              have hcr : c.2.rank ≤ i := by
+                cases hc2 : c.2 with
+                | atom t => simp [GVal.rank]
+                | ref j => have := wf i o ho c hc j hc2; simp [GVal.rank]; omega
+              have s1 := ih c.2 (path ++ [c.1]) st0 i (by simp [GVal.rank] at hr; omega) hcr h0
+              obtain ⟨d2, m2, l2, f2⟩ := ihc _ (fun pv hpv => hsub pv (by simp [hpv])) s1.done
+              refine ⟨d2, fun k hk => m2 k (s1.mono k hk), ?_, ?_⟩
+              · intro k hk
+                rcases l2 k hk with hk | hk
+                · rcases s1.newLow k hk with hk | hk
+                  · exact Or.inl hk
+                  · right; omega
+                · exact Or.inr hk
+              · intro pv hpv c' hc'
+                rcases List.mem_cons.mp hpv with rfl | hpv
+                · exact (s1.full c' hc').mono m2
+                · exact f2 pv hpv c' hc'
+          obtain ⟨d1, m1, l1, f1⟩ := key o.children _ (fun _ hpv => hpv) hd0
+          have hfull : FullAt h (o.children.foldl
+              (fun st pv => iterGo h .memo fuel pv.2 (path ++ [pv.1]) st)
+              { memo := i :: st.memo, out := st.out ++ [(GVal.ref i, path)] }) i := by
+            intro j hj
+            cases hj with
+            | refl => exact m1 i (by simp)
+            | step _ c _ o' pv ho' hpv hc hrest =>
+              rw [ho] at ho'; cases ho'
+              exact f1 pv hpv c hc j hrest
+          refine ⟨?_, fun k hk => m1 k (by simp [hk]), ?_, ?_⟩
+          · intro k hk hkn
+            rcases l1 k hk with hk0 | hki
+            · simp only [List.mem_cons] at hk0
+              rcases hk0 with rfl | hk0
+              · exact hfull
+              · exact (hd k hk0 hkn).mono (fun k hk => m1 k (by simp [hk]))
+            · exact d1 k hk hki
+          · intro k hk
+            rcases l1 k hk with hk0 | hki
+            · simp only [List.mem_cons] at hk0
+              rcases hk0 with rfl | hk0
+              · right; simp [GVal.rank]
+              · exact Or.inl hk0
+            · right; simp [GVal.rank]; omega
+          · intro k hk; cases hk; exact hfull
+
+/-- Memoized objects have been yielded. -/
+theorem iterGo_memo_yielded (h : Heap) (fuel : Nat) : ∀ (v : GVal) (path : Path) (st : IterSt),
+    (∀ k ∈ st.memo, k ∈ refIds st.out) →
+    ∀ k ∈ (iterGo h .memo fuel v path st).memo, k ∈ refIds (iterGo h .memo fuel v path st).out := by
+  induction fuel with
+  | zero => intro v path st hs; simpa [iterGo] using hs
+  | succ fuel ih =>
+    intro v path st hs
+    rw [iterGo_succ]
+    cases v with
+    | atom t => simpa [visitSt, refIds_append_atom] using hs
+    | ref i =>
+      dsimp only
+      split
+      · exact hs
+      · have h0 : ∀ k ∈ i :: st.memo, k ∈ refIds (st.out ++ [(GVal.ref i, path)]) := by
+          intro k hk
+          rw [refIds_append_ref]
+          simp only [List.mem_cons] at hk
+          rcases hk with rfl | hk
+          · simp
+          · simp [hs k hk]
+        simp only [visitSt]
+        cases h[i]? with
+        | none => exact h0
+        | some o =>
+          dsimp only
+          apply foldl_inv (fun (st : IterSt) => ∀ k ∈ st.memo, k ∈ refIds st.out)
+          · exact h0
+          · intro b hb pv _; exact ih _ _ _ hb
+
 end Fiddle
